@@ -30,7 +30,7 @@ from . import common, rel, sess, tlc
 
 TIERS = {
     "quick": dict(histories=22, steps=60, generic=60, procs=15),
-    "thorough": dict(histories=600, steps=110, generic=400, procs=15),
+    "thorough": dict(histories=360, steps=110, generic=400, procs=15),
 }
 NQ = 16
 PQ = [13, 14, 15, 16]
